@@ -1,6 +1,7 @@
 import Gomacro.Drv.C03
 import Gomacro.PgTables
 import Gomacro.EndToEndSql
+import Gomacro.PgParse
 namespace Gomacro.Drv
 open Lean Gomacro.IR Gomacro.GoJson Gomacro.PgGen Gomacro.PgTables
 
@@ -91,5 +92,30 @@ def c04EvalReal : Handler := fun j => do
   let fn := getStrD j "fn"
   let res := (getListD j "docs").map fun d => triToJson (call script 64 fn (some (jsonToJVal d)))
   return Json.mkObj [("texts", strs (script.map printFunc)), ("results", Json.arr res.toArray)]
+
+/-- op `c04.evalAst`: the REAL text of the validators of a script, parsed (`PgParse`) and evaluated by
+the semantics of the plpgsql fragment (`PgAst.evalFunc`) on documents; with `env` and `type`, the
+tie with the model: which functions of the model's script for that column type have a syntax tree
+(`PgAst.astOf`) different from the parsed real one -/
+def c04EvalAst : Handler := fun j => do
+  let texts := strList j "texts"
+  let parsed := texts.map PgParse.parseFunc
+  let funcs := parsed.filterMap fun p => match p with | .ok f => some f | .error _ => none
+  let errs := (texts.zip parsed).filterMap fun (t, p) => match p with
+    | .error e => some (e ++ " in: " ++ String.ofList (t.toList.take 120)) | .ok _ => none
+  let fn := getStrD j "fn"
+  let res := (getListD j "docs").map fun d => triToJson (PgAst.evalFunc funcs 64 fn (some (jsonToJVal d)))
+  let tie ← match j.getObjVal? "env", j.getObjVal? "type" with
+    | .ok e, .ok t => do
+      let env ← decEnv e
+      let ty ← decTy t
+      let script := funcsFrom env 24 ty
+      let diff := script.filter fun f => match funcs.find? (·.name == f.name) with
+        | some g => !(PgParse.beqFunc g (PgAst.astOf f))
+        | none => true
+      pure (Json.mkObj [("differ", strs (diff.map (·.name))), ("wf", Json.bool (script.all PgAst.wf)),
+        ("functions", Json.num script.length)])
+    | _, _ => pure Json.null
+  return Json.mkObj [("results", Json.arr res.toArray), ("parseErrors", strs errs), ("tie", tie)]
 
 end Gomacro.Drv
